@@ -160,6 +160,8 @@ def translate_args(without_kwargs, args, kwargs):
                 param_name = param_name.value
             else:
                 raise exceptions.MappingTranslationException()
+            if param_name in kw_args:
+                raise exceptions.MappingTranslationException()
             kw_args[param_name] = t.destination
         else:
             pos_args.append(t)
